@@ -225,7 +225,7 @@ impl RtpsWriterProxy {
         self.skip_irrelevant_changes();
     }
 
-    pub fn missing_changes(&self) -> impl Iterator<Item = SequenceNumber> {
+    pub fn missing_changes(&self) -> impl Iterator<Item = SequenceNumber> + '_ {
         // The changes with status 'MISSING' represent the set of changes available in the HistoryCache of the RTPS Writer
         // represented by the RTPS WriterProxy that have not been received by the RTPS Reader.
         // return { change IN this.changes_from_writer SUCH-THAT change.status == MISSING};
@@ -239,11 +239,26 @@ impl RtpsWriterProxy {
             self.first_available_seq_num,
             self.highest_received_change_sn + 1,
         );
-        (first_missing_change..=highest_number).filter(|sn| {
-            !self
-                .irrelevant_changes
-                .iter()
-                .any(|(first, last)| first <= sn && sn <= last)
+        // Irrelevant ranges are jumped over instead of being visited number by number: the range
+        // announced by a HEARTBEAT or GAP is chosen by the remote writer and can be huge
+        let irrelevant_changes = &self.irrelevant_changes;
+        let mut next_candidate = Some(first_missing_change);
+        core::iter::from_fn(move || {
+            loop {
+                let candidate = next_candidate?;
+                if candidate > highest_number {
+                    return None;
+                }
+                if let Some((_, last)) = irrelevant_changes
+                    .iter()
+                    .find(|(first, last)| *first <= candidate && candidate <= *last)
+                {
+                    next_candidate = last.checked_add(1);
+                } else {
+                    next_candidate = candidate.checked_add(1);
+                    return Some(candidate);
+                }
+            }
         })
     }
 
@@ -306,7 +321,7 @@ impl RtpsWriterProxy {
         reader_guid: &Guid,
         message_writer: &(impl WriteMessage + ?Sized),
     ) {
-        if self.must_send_acknacks() || !self.missing_changes().count() == 0 {
+        if self.must_send_acknacks() {
             self.set_must_send_acknacks(false);
             self.increment_acknack_count();
             // The writer only processes a NACK_FRAG whose count is higher than the last one received
@@ -316,13 +331,16 @@ impl RtpsWriterProxy {
                 InfoDestinationSubmessage::new(self.remote_writer_guid().prefix());
 
             // We report missing changes up to the one where we have received at least one fragment
+            // Only the sequence numbers that fit the 256 bits of the set can be reported
+            let acknack_base = self.available_changes_max() + 1;
             let missing_changes = self.missing_changes().take(256).take_while(|x| {
-                x < &self
-                    .frag_buffer
-                    .iter()
-                    .map(|x| x.writer_sn())
-                    .min()
-                    .unwrap_or(i64::MAX)
+                x - acknack_base < 256
+                    && x < &self
+                        .frag_buffer
+                        .iter()
+                        .map(|x| x.writer_sn())
+                        .min()
+                        .unwrap_or(i64::MAX)
             });
             let acknack_submessage = AckNackSubmessage::new(
                 true,
@@ -386,6 +404,6 @@ impl RtpsWriterProxy {
 
     pub fn is_historical_data_received(&self) -> bool {
         let at_least_one_heartbeat_received = self.last_received_heartbeat_count > 0;
-        at_least_one_heartbeat_received && self.missing_changes().count() == 0
+        at_least_one_heartbeat_received && self.missing_changes().next().is_none()
     }
 }
